@@ -483,6 +483,7 @@ type JobResult struct {
 	Incomplete          string // non-empty if exploration stopped early
 	OKSamples           []*PathResult
 	Distinct            int
+	DistinctNontrivial  int
 	Funcs               map[string]bool
 	KnownHits           map[string]int
 	UncertainOK         int
